@@ -110,6 +110,15 @@ def lit(s):
     return '[' + '; '.join(str(ord(c)) for c in s) + ']%N' if s else '[]'
 
 
+# every source function whose control flow is regenerated on every run (coverage audit: tools/coverage_map.py)
+TRANSLATED = [
+    'pyramid/location.py:lineage', 'pyramid/location.py:inside',
+    'pyramid/traversal.py:_resource_path_list', 'pyramid/traversal.py:resource_path_tuple',
+    'pyramid/traversal.py:resource_path', 'pyramid/traversal.py:_join_path_tuple',
+    'pyramid/traversal.py:quote_path_segment', 'pyramid/traversal.py:find_root', 'pyramid/traversal.py:traverse',
+    'pyramid/traversal.py:find_resource', 'pyramid/traversal.py:virtual_root',
+]
+
 # per function: module, python name, gen name, parameter types (by position), vararg type, return kind
 #   ret: ('pure', T) | ('out', T) | ('gen', T) ; for find_resource the result table maps return/raise to [found]
 FUNCS = [
